@@ -31,6 +31,15 @@ func init() {
 		}
 		return nil, errors.New("neither on nor off")
 	}
+	ref.CustomUnmarshal["PLevel"] = func(s string) (interface{}, error) {
+		switch s {
+		case "low":
+			return decl.PLevel(0), nil
+		case "high":
+			return decl.PLevel(1), nil
+		}
+		return nil, errors.New("neither low nor high")
+	}
 	ref.CustomUnmarshal["Sink"] = func(s string) (interface{}, error) {
 		if s == "bad" {
 			return nil, errors.New("bad")
